@@ -1,0 +1,45 @@
+//go:build verif
+
+package goja
+
+import "sync/atomic"
+
+// VerifC03State is the white-box view of the VM control state used by the C03 check
+// (/verif/design/C03.md).  It is read between API calls (must satisfy the model's Idle predicate)
+// and from inside native probe functions (compared with the model's prediction of the
+// call/try/iter/ref stack lengths at that probe).  Add-only; nothing here writes VM state.
+type VerifC03State struct {
+	Sp, Sb, Pc   int
+	CallStackLen int
+	TryStackLen  int
+	IterStackLen int
+	RefStackLen  int
+	PrgNil       bool
+	StashGlobal  bool // vm.stash == &r.global.stash
+	PrivEnvNil   bool
+	JobQueueLen  int
+	Interrupted  bool
+	MaxCallStack int
+	StackNil     bool // vm.stack == nil (leave() drops the operand stack)
+}
+
+// VerifC03VMState returns the current control state of r's VM.
+func VerifC03VMState(r *Runtime) VerifC03State {
+	vm := r.vm
+	return VerifC03State{
+		Sp:           vm.sp,
+		Sb:           vm.sb,
+		Pc:           vm.pc,
+		CallStackLen: len(vm.callStack),
+		TryStackLen:  len(vm.tryStack),
+		IterStackLen: len(vm.iterStack),
+		RefStackLen:  len(vm.refStack),
+		PrgNil:       vm.prg == nil,
+		StashGlobal:  vm.stash == &r.global.stash,
+		PrivEnvNil:   vm.privEnv == nil,
+		JobQueueLen:  len(r.jobQueue),
+		Interrupted:  atomic.LoadUint32(&vm.interrupted) != 0,
+		MaxCallStack: vm.maxCallStackSize,
+		StackNil:     vm.stack == nil,
+	}
+}
